@@ -13,6 +13,7 @@ import (
 	"fmt"
 	"os"
 	"path/filepath"
+	"runtime"
 	"sort"
 	"strconv"
 	"strings"
@@ -126,6 +127,9 @@ func vGenParams(r *vRng, n int) []vParam {
 			ps = append(ps, vParam{ID: id, Scrypt: true, Key: r.bytes(32), Cost: uint(1 + r.intn(3)), R: []int{0, 1, 2}[r.intn(3)], P: []int{0, 1, 2}[r.intn(3)]})
 		} else {
 			th := uint8(1 + r.intn(2))
+			if r.intn(6) == 0 {
+				th = uint8(runtime.NumCPU() + 1) // more lanes than the machine has CPUs
+			}
 			ps = append(ps, vParam{ID: id, Time: uint32(1 + r.intn(2)), Memory: uint32(8*int(th))*uint32(1+r.intn(2)) + []uint32{0, 0, 1, 3, 5, 7}[r.intn(6)], Threads: th, Length: []uint32{16, 20, 32, 64}[r.intn(4)]})
 		}
 	}
@@ -569,4 +573,19 @@ var vAuxSamples = [][]byte{
 	[]byte("u2f: crlf\r\ntotp: x\r\n"),
 	{0x00, 0xff, 0x0a, 0x0a, 0x80, 0x81, 0x0a},
 	[]byte("\n\n"),
+}
+
+// larger auxiliary data (beyond one 4 KiB buffer): used sparingly, every snapshot carries it
+var vAuxBig = [][]byte{vBigAux(6000, true), vBigAux(4096-120, false), vBigAux(9000, true)}
+
+// auxiliary data of about n bytes made of distinguishable lines (a dropped or repeated block shows)
+func vBigAux(n int, finalNL bool) []byte {
+	var b []byte
+	for i := 0; len(b) < n; i++ {
+		b = append(b, []byte(fmt.Sprintf("key%04d: %s\n", i, strings.Repeat(string(rune('a'+i%26)), 40)))...)
+	}
+	if !finalNL {
+		b = b[:len(b)-1]
+	}
+	return b
 }
